@@ -30,13 +30,8 @@ ASSUMPTIONS = [
     "of L(M) of some length <= 10 avoids the basis the answer must be 'finite'",
 ]
 PARTIAL = [
-    "accepts_iff_contains (Bassino-Bouvel-Pierrot-Rossin): for w in L(M), |w|>=2: accepts (dfa B) w <-> exists b in B, "
-    "Contains (perm w) b -- evaluated for all w in L(M) with |w| <= 8 and all bases of <= 2 permutations of length <= 4 "
-    "(bounded test, op sembits) and for random longer words (op accs); cross-consistency with C14 IS proved "
-    "(C14.nfa_vs_occurrences / _M / _general in Props/C14.lean: the NFA of u accepts m in L(M), |m|>=2, iff "
-    "pinword_contains(m_to_sp(m), u)), so this item and C14's pinword_contains_iff are one and the same open statement",
-    "db_equiv: shipped dfa_db automata language-equivalent to the automata computed from scratch -- complete comparison "
-    "of canonical minimal automata for every shipped file (ops dbcanon/canondb), not a Lean theorem",
+    "accepts_iff_contains (Bassino-Bouvel-Pierrot-Rossin) is now PROVED: C14.basisAccepts_iff_contains (Props/C14.lean A6': for m in L(M), |m|>=2, basisAccepts B m <-> perm(m_to_sp m) contains some b in B; with C15.pipeline_language it covers the automaton of make_dfa_for_basis) and C14.hasFinitePinperms_iff (has_finite_pinperms B <-> the B-avoiding permutations of strict pin words are bounded in length); sigma is stated through C14's mToSp/pinwordToPerm (the bridge for Model.C15.pinwordToPerm is proved, C14C15.decode_bridge; the one for Model.C15.mToSp is evaluated: ops sembits/accs still run as tests)",
+    'db_equiv: shipped dfa_db automata language-equivalent to the automata computed from scratch -- complete comparison of canonical minimal automata for every shipped file (ops dbcanon/canondb), not a Lean theorem',
 ]
 TRUSTED = ["automata-lib 7.x (DFA.from_nfa, union, difference, isfinite, accepts_input) - not modelled, results compared"]
 
